@@ -87,25 +87,10 @@ Definition w_ref_elems (p : parsed) (k : nat) (in_use : list Z) (refs : list tri
       (if str_eqb (text_of tg) (text_of me) then [{| re_attrs := [(lit "ReferenceType", text_of ty); (lit "IsForward", lit "false")]; re_text := Some (text_of s) |}] else [])
     else if str_eqb (text_of s) (text_of me) then [{| re_attrs := [(lit "ReferenceType", text_of ty)]; re_text := Some (text_of tg) |}] else []) refs.
 
-Definition write_doc (p : parsed) (w : wparams) : res doc :=
-  match str_index (wp_uri w) (p_namespaces p) with
-  | None => Err EValue
-  | Some k =>
-      let kz := Z.of_nat k in
-      (* remove_instance_level_outgoing_references *)
-      rbind (use_refs p w kz) (fun refs =>
-      let newl := w_newl (p_namespaces p) k in
-      let nodes1 := w_nodes1 p k in
-      let mine := w_mine p k in
-      let in_use := w_in_use p k refs in
-      let newl2 := map (fun i => nth (Z.to_nat i) newl []) in_use in
-      let compact := w_compact in_use in
-      match newl2 with
-      | _ :: u1 :: _ =>
-          let lookup := w_lookup p k in_use in
-          let text_of := w_text_of p k in_use in
-          let written := w_written p k in_use in
-          let node_elem_of (x : node_row * nodeid * option Z) : node_elem :=
+Definition w_node_elem (p : parsed) (k : nat) (in_use : list Z) (refs : list triple) (x : wrow) : node_elem :=
+  let lookup := w_lookup p k in_use in
+  let text_of := w_text_of p k in_use in
+  let compact := w_compact in_use in
             let r := fst (fst x) in
             let me := nr_nodeid r in
             {| ne_cls := nr_cls r;
@@ -130,7 +115,27 @@ Definition write_doc (p : parsed) (w : wparams) : res doc :=
                ne_refs := w_ref_elems p k in_use refs me;
                ne_value := if str_eqb (nr_cls r) (lit "UAVariable") || str_eqb (nr_cls r) (lit "UAVariableType")
                            then match nr_value r with Some v => omap (fun t => NElem NODESET_NS (lit "Value") [] None [t]) (vtree v) | None => None end
-                           else None |} in
+                           else None |}.
+
+Definition write_doc (p : parsed) (w : wparams) : res doc :=
+  match str_index (wp_uri w) (p_namespaces p) with
+  | None => Err EValue
+  | Some k =>
+      let kz := Z.of_nat k in
+      (* remove_instance_level_outgoing_references *)
+      rbind (use_refs p w kz) (fun refs =>
+      let newl := w_newl (p_namespaces p) k in
+      let nodes1 := w_nodes1 p k in
+      let mine := w_mine p k in
+      let in_use := w_in_use p k refs in
+      let newl2 := map (fun i => nth (Z.to_nat i) newl []) in_use in
+      let compact := w_compact in_use in
+      match newl2 with
+      | _ :: u1 :: _ =>
+          let lookup := w_lookup p k in_use in
+          let text_of := w_text_of p k in_use in
+          let written := w_written p k in_use in
+          let node_elem_of := w_node_elem p k in_use refs in
           let model := find (fun m => match mo_uri m with Some u => str_eqb u u1 | None => false end) (p_models p) in
           let version := match wp_newver w with Some v => Some v | None => obind model mo_version end in
           let ostr_none (o : option str) : str := match o with Some s => s | None => lit "None" end in
